@@ -48,8 +48,8 @@ func isStoreCall(in ssa.Instruction, method string) bool {
 }
 
 func checkC14(w *World, r *Report) {
-	r.Decides = "C14 is decided in its structural part only: (a) create answers ErrTableExists on the exists edge, writes the record with version 0 (compare-and-set create), maps a version mismatch to ErrTableExists and takes the shard id from the id sequence; (b) the id sequence writes current+1 with the version it read and returns that value together with the write's error, and every other assignment of a table's ClusterID/RecoverID derives from it; (c) the state-machine directory name is built from both the table name and the shard id; (d) delete maps 'not stored' to ErrTableNotFound and deletes with the version it read; (e) reconciliation starts exactly catalogued-not-running ids above the reserved range and stops exactly running-not-catalogued ids above it; (f) every read and proposal of an ActiveTable targets its own shard id and session."
-	r.NotDecided = []string{"races between nodes beyond the compare-and-set (reduced to C13.a)", "emptiness of a recreated table beyond the fresh directory", "table names containing '/' (they collide with the lease/sequence key space and are invisible to the listing glob - outside the stated quantifier, noted in DESIGN.md)"}
+	r.Decides = "C14 is decided in its structural part only: (a) create answers ErrTableExists on the exists edge, writes the record with version 0 (compare-and-set create), maps a version mismatch to ErrTableExists and takes the shard id from the id sequence; (b) the id sequence writes current+1 with the version it read and returns that value together with the write's error, and every other assignment of a table's ClusterID/RecoverID derives from it; (c) the state-machine directory name is built from both the table name and the shard id; (d) delete maps 'not stored' to ErrTableNotFound and deletes with the version it read; (e) reconciliation starts exactly catalogued-not-running ids above the reserved range and stops exactly running-not-catalogued ids above it; (f) every read and proposal of an ActiveTable targets its own shard id and session; (g) a record for an externally supplied name is written only after the name passed a path-separator test (names with '/' leave the catalogue's key space)."
+	r.NotDecided = []string{"races between nodes beyond the compare-and-set (reduced to C13.a)", "emptiness of a recreated table beyond the fresh directory"}
 	r.Assume = []string{"C13: the metadata store is a compare-and-set map whose versions are never 0"}
 	c14Create(w, r)
 	c14Seq(w, r)
@@ -57,6 +57,7 @@ func checkC14(w *World, r *Report) {
 	c14Delete(w, r)
 	c14Diff(w, r)
 	c14Isolation(w, r)
+	c14KeySpace(w, r)
 }
 
 func c14Create(w *World, r *Report) {
@@ -495,19 +496,19 @@ func c14Isolation(w *World, r *Report) {
 			}
 			switch c.Method.Name() {
 			case "SyncRead":
-				e := Expr(c.Args[1])
+				e := strings.TrimLeft(Expr(c.Args[1]), "^")
 				ob.Site(in.Pos(), "SyncRead shard "+e+" in "+FnName(fn))
 				if e != "$0.Table.ClusterID" {
 					ob.Violate("read-target@"+FnName(fn), in.Pos(), "a linearizable read is addressed to shard `"+e+"`, not the table's own shard")
 				}
 			case "StaleRead":
-				e := Expr(c.Args[0])
+				e := strings.TrimLeft(Expr(c.Args[0]), "^")
 				ob.Site(in.Pos(), "StaleRead shard "+e+" in "+FnName(fn))
 				if e != "$0.Table.ClusterID" {
 					ob.Violate("read-target@"+FnName(fn), in.Pos(), "a local read is addressed to shard `"+e+"`, not the table's own shard")
 				}
 			case "SyncPropose":
-				e := Expr(c.Args[1])
+				e := strings.TrimLeft(Expr(c.Args[1]), "^")
 				ob.Site(in.Pos(), "SyncPropose session "+e+" in "+FnName(fn))
 				if e != "$0.session" {
 					ob.Violate("propose-target@"+FnName(fn), in.Pos(), "a proposal uses session `"+e+"`, not the table's own session")
@@ -826,4 +827,215 @@ func isLeaseCall(c *ssa.CallCommon) bool {
 	}
 	cal := StaticCallee(c)
 	return cal != nil && cal.Name() == "LeaseTable"
+}
+
+// ---- C14.g: names stay inside the catalogue's key space ----
+
+// nameValidators: functions (string) error of the table package that cannot return nil once
+// strings.Contains(name, "/") (or an equivalent separator test) held.
+func nameValidators(w *World) []*ssa.Function {
+	var out []*ssa.Function
+	sp := w.SSAPkg("storage/table")
+	if sp == nil {
+		return nil
+	}
+	for _, m := range sp.Members {
+		fn, ok := m.(*ssa.Function)
+		if !ok || fn.Blocks == nil || len(fn.Params) != 1 || errorResultIndex(fn) != 0 || fn.Signature.Results().Len() != 1 {
+			continue
+		}
+		if b, ok := fn.Params[0].Type().Underlying().(*types.Basic); !ok || b.Kind() != types.String {
+			continue
+		}
+		ctx := &ExprCtx{Alias: map[ssa.Value]string{}}
+		n := 0
+		eachInstr(fn, func(in ssa.Instruction) {
+			if isSeparatorTest(in, fn.Params[0]) {
+				ctx.Alias[in.(ssa.Value)] = "hasSep"
+				n++
+			}
+		})
+		if n == 0 {
+			continue
+		}
+		// from the hasSep edge no nil return
+		good := true
+		for _, b := range fn.Blocks {
+			for k := range b.Succs {
+				for _, l := range ctx.EdgeLits(b, k) {
+					if l.Kind == "bool" && !l.Neg && l.A == "hasSep" {
+						for _, in := range (&Walk{}).ReachableInstrs(Loc{b.Succs[k], 0}) {
+							if ret, ok := in.(*ssa.Return); ok && !isErrorReturn(ret) {
+								good = false
+							}
+						}
+					}
+				}
+			}
+		}
+		// and a nil return is reachable only over !hasSep
+		wk := &Walk{Target: isSuccessReturn, EdgeOK: func(b *ssa.BasicBlock, k int) bool {
+			for _, l := range ctx.EdgeLits(b, k) {
+				if l.Kind == "bool" && l.Neg && l.A == "hasSep" {
+					return false
+				}
+			}
+			return true
+		}}
+		if wk.Find(entry(fn)) != nil {
+			good = false
+		}
+		if good {
+			out = append(out, fn)
+		}
+	}
+	return out
+}
+
+// isSeparatorTest: strings.Contains(v, "/") / ContainsRune / ContainsAny / IndexByte-style test on v.
+func isSeparatorTest(in ssa.Instruction, v ssa.Value) bool {
+	c := plainCall(in)
+	if c == nil || len(c.Args) != 2 || !sameValue(c.Args[0], v) {
+		return false
+	}
+	switch CalleeName(c) {
+	case "strings.Contains", "strings.ContainsAny":
+		k, ok := c.Args[1].(*ssa.Const)
+		return ok && k.Value != nil && k.Value.Kind() == constant.String && strings.Contains(constant.StringVal(k.Value), "/")
+	case "strings.ContainsRune":
+		k, ok := constInt(c.Args[1])
+		return ok && k == '/'
+	}
+	return false
+}
+
+func c14KeySpace(w *World, r *Report) {
+	ob := r.Ob("C14.g", "g-name-inside-key-space", "a catalogue record whose name comes from a string parameter (create, restore) is written only after that name passed a separator test: every path from the function's entry to the record write crosses the nil edge of a validator that cannot return nil when strings.Contains(name, \"/\"), or the false edge of such a test itself - in the function or, for all of its call sites, in its callers", "catalogue keys are paths listed by a glob that does not cross '/': a table named a/b is created but invisible to listing and reconciliation, and x/lease shares its key with the replication lease of table x")
+	mt := w.NamedType("storage/table", "Manager")
+	if mt == nil {
+		ob.Undecided("anchor", "table manager not found")
+		return
+	}
+	pt := types.NewPointer(mt)
+	// the record writer: Manager method with a Table parameter that calls store.Set
+	var writer *ssa.Function
+	ms := w.Prog.MethodSets.MethodSet(pt)
+	var methods []*ssa.Function
+	for i := 0; i < ms.Len(); i++ {
+		if f := w.MethodOf(pt, ms.At(i).Obj().Name()); f != nil && f.Blocks != nil {
+			methods = append(methods, f)
+		}
+	}
+	for _, f := range methods {
+		if len(f.Params) < 2 || !typeIs(f.Params[1].Type(), tablePath, "Table") {
+			continue
+		}
+		eachInstr(f, func(in ssa.Instruction) {
+			if isStoreCall(in, "Set") && strings.Contains(Expr(plainCall(in).Args[0]), "$1.Name") {
+				writer = f
+			}
+		})
+	}
+	if writer == nil {
+		ob.Undecided("anchor/writer", "no Manager method (Table, …) that writes the record under a key built from the table's name")
+		return
+	}
+	ob.Site(writer.Pos(), "record writer "+FnName(writer))
+	validators := nameValidators(w)
+	for _, v := range validators {
+		ob.Site(v.Pos(), "name validator "+FnName(v)+" (no nil return once the name contains the separator)")
+	}
+	isValidator := func(f *ssa.Function) bool {
+		for _, v := range validators {
+			if v == f {
+				return true
+			}
+		}
+		return false
+	}
+	// guardedAt: every path from f's entry to `at` establishes that value p (a string of f) has no separator
+	var guardedAt func(f *ssa.Function, at ssa.Instruction, p ssa.Value, depth int) bool
+	guardedAt = func(f *ssa.Function, at ssa.Instruction, p ssa.Value, depth int) bool {
+		ctx := &ExprCtx{Alias: map[ssa.Value]string{}}
+		eachInstr(f, func(in ssa.Instruction) {
+			c := plainCall(in)
+			if c == nil {
+				return
+			}
+			if cal := StaticCallee(c); cal != nil && isValidator(cal) && len(c.Args) == 1 && sameValue(c.Args[0], p) {
+				ctx.Alias[in.(ssa.Value)] = "valid"
+			}
+			if isSeparatorTest(in, p) {
+				ctx.Alias[in.(ssa.Value)] = "hasSep"
+			}
+		})
+		wk := &Walk{Target: func(x ssa.Instruction) bool { return x == at }, EdgeOK: func(b *ssa.BasicBlock, k int) bool {
+			for _, l := range ctx.EdgeLits(b, k) {
+				if l.Kind == "eq" && !l.Neg && l.B == "nil" && l.A == "valid" {
+					return false
+				}
+				if l.Kind == "bool" && l.Neg && l.A == "hasSep" {
+					return false
+				}
+			}
+			return true
+		}}
+		if wk.Find(entry(f)) == nil {
+			return true
+		}
+		// the callers establish it for the argument they pass
+		par, isP := p.(*ssa.Parameter)
+		if !isP || depth >= 2 {
+			return false
+		}
+		idx := -1
+		for i, q := range f.Params {
+			if q == par {
+				idx = i
+			}
+		}
+		callers := w.CallersOf(f)
+		if idx < 0 || len(callers) == 0 {
+			return false
+		}
+		for _, ci := range callers {
+			if idx >= len(ci.Common().Args) || !guardedAt(ci.Parent(), ci, ci.Common().Args[idx], depth+1) {
+				return false
+			}
+		}
+		return true
+	}
+	n := 0
+	for _, f := range methods {
+		eachInstr(f, func(in ssa.Instruction) {
+			c := plainCall(in)
+			if c == nil || StaticCallee(c) != writer {
+				return
+			}
+			// the Table argument: a load of a local whose Name field is stored in f
+			u, ok := c.Args[1].(*ssa.UnOp)
+			if !ok {
+				return
+			}
+			al, ok := u.X.(*ssa.Alloc)
+			if !ok {
+				return
+			}
+			for _, st := range storesToField(f, al, "Name") {
+				src := st.Val
+				if _, isParam := src.(*ssa.Parameter); !isParam {
+					continue // a name read back from the catalogue, not from outside
+				}
+				n++
+				ob.Site(in.Pos(), "record for the name parameter `"+Expr(src)+"` written in "+FnName(f))
+				if !guardedAt(f, in, src, 0) {
+					ob.Violate("name-unchecked@"+FnName(f), in.Pos(), FnName(f)+" writes a catalogue record for a name it was given without a separator test having been passed: a name containing '/' leaves the catalogue's key space")
+				}
+			}
+		})
+	}
+	if n == 0 {
+		ob.Undecided("shape", "no record write for a name parameter found")
+	}
+	ob.NeedFloor(3)
 }
